@@ -519,13 +519,53 @@ func runC10(e *Env) {
 			wc = append(wc, playCase{Path: "cli", Insts: []refplay.Inst{shapes[i], shapes[(i+1)%len(shapes)]}, Cfg: writeCfg{Flags: fl}})
 		}
 	}
+	// settings that change and later return - also to the value that happens to be the default
+	// (100 bpm, 4/4, C, and each dynamic in turn): every settings history of length <= 3 over
+	// {absent, default value, other value} per setting, one setting at a time, plus the long documents
+	ch := refplay.Inst{Chord: &refplay.Chord{Degree: iv("5"), Symbol: "7"}, Values: one()}
+	withSet := func(kind, val int) refplay.Inst {
+		in := ch
+		switch kind {
+		case 0:
+			if val > 0 {
+				in.BPM = up([]uint64{0, 100, 140}[val])
+			}
+		case 1:
+			if val > 0 {
+				in.Meter = &timing.Frac{Num: []uint64{0, 4, 3}[val], Den: 4}
+			}
+		case 2:
+			if val > 0 {
+				in.Key = sp([]string{"", "C", "Eb"}[val])
+			}
+		default:
+			if val > 0 {
+				in.Vel = sp(refplay.Dynamics[(kind-3+val-1)%len(refplay.Dynamics)])
+			}
+		}
+		return in
+	}
+	for kind := 0; kind < 3+len(refplay.Dynamics); kind++ {
+		for h := 0; h < 27; h++ {
+			c := playCase{Path: "cli"}
+			for i, x := 0, h; i < 3; i, x = i+1, x/3 {
+				c.Insts = append(c.Insts, withSet(kind, x%3))
+			}
+			c.Insts = append(c.Insts, ch)
+			wc = append(wc, c)
+		}
+	}
+	for _, c := range longDocs(130, []int{0, 1, 64, 129}, nil) {
+		c.Path = "cli"
+		wc = append(wc, c)
+	}
 	mc.ParFor(len(wc), func(i int) {
 		c := wc[i]
 		c10WriteConv(e, &c)
 		e.R.Trace(1)
 		e.R.NonTrivial(fmt.Sprint("w", i))
 	})
-	e.R.AddPart(ev.Part{Name: "write-conv-roundtrip", Enumerated: "real binary: all documents of length <= 2 over 8 instance shapes: `write conv -c cmt` | `write` vs `write`, decoded, text events aside; and with 4 flag sets: `write conv FLAGS` | `write` vs `write FLAGS`", Executions: int64(len(wc)), Exhaustive: true})
+	e.R.AddPart(ev.Part{Name: "write-conv-roundtrip", Enumerated: "real binary: all documents of length <= 2 over 8 instance shapes: `write conv -c cmt` | `write` vs `write`, decoded, text events aside; every history of length 3 over {absent, the default value, another value} for bpm, meter, key and each dynamic; long documents (130 instances, one deviation at 0, 1, 64, 129); and with 4 flag sets: `write conv FLAGS` | `write` vs `write FLAGS`", Executions: int64(len(wc)), Exhaustive: true})
 	e.R.Sample(map[string]any{"field": "meta-value", "text": "a: b # c"})
 	e.R.Sample(map[string]any{"pipeline": "1[1] 5_7/3[1/2,1/3]{key=Cb,bpm=61,txt=- x,vel=pp,mtr=5/4} 6bmaj7[1]"})
 }
